@@ -387,11 +387,13 @@ func (V *Verifier) modifiesNames(ex *Exec, spec *FuncSpec, c *ssa.CallCommon) []
 		for _, e := range cl.Exprs {
 			switch x := e.(type) {
 			case *SIdent:
+				if V.db.IsTrace(x.Name) {
+					out = append(out, x.Name, x.Name+"len")
+					ex.noteHeap(x.Name, ArrS(SInt, SEvent))
+					ex.noteHeap(x.Name+"len", SInt)
+					continue
+				}
 				switch x.Name {
-				case "$tr":
-					out = append(out, "$tr", "$trlen")
-					ex.noteHeap("$tr", ArrS(SInt, SEvent))
-					ex.noteHeap("$trlen", SInt)
 				case "$held", "$wg":
 					out = append(out, x.Name)
 					ex.noteHeap(x.Name, ArrS(SInt, SInt))
@@ -471,7 +473,7 @@ func (V *Verifier) NewExec(fn *ssa.Function, spec *FuncSpec) *Exec {
 		iterLoop: map[string]*ssa.BasicBlock{}, localName: map[string]*ssa.Alloc{},
 		freeVarVals: map[*ssa.FreeVar]Val{}, ifaceSrc: map[string]ifaceOrigin{}, ifacePayload: map[string]Val{},
 		usedSpecs: map[string]bool{}, usedSpecFns: map[string]bool{}, usedAx: map[string]bool{},
-		constArrs: map[string]*Term{}, concatPrefix: map[string]string{},
+		constArrs: map[string]*Term{}, concatPrefix: map[string]string{}, callCount: map[string]int{},
 	}
 	if spec != nil {
 		ex.safety = len(spec.Safety) > 0
